@@ -1,5 +1,5 @@
 (** Proofs about [Model/ProofCheck.v]. *)
-From BX Require Import Base.Prelude Model.Fees Model.ExecFrame Model.ProofCheck Proofs.ExecFrameProofs.
+From BX Require Import Base.Prelude Model.Fees Model.ExecFrame Model.ProofCheck Model.Packed Proofs.ExecFrameProofs.
 From Coq Require Import ZifyBool ZifyN ZifyNat.
 Local Open Scope N_scope.
 
@@ -310,3 +310,17 @@ Example pool_fresh_example :
              {| n_committed := st_rule 0; n_view := None |} pool_hist)
   = [None; Some VOk; None; Some (VErr 5); None; Some (VErr 5)].
 Proof. split; reflexivity. Qed.
+
+(** the multi-signature theorem with the digest made concrete: the packed encoding of the IBTP's
+    fields and the status, under any hash *)
+Theorem multisig_threshold_packed (H : N -> N) (hash : list N -> N) (fields_of : N -> pfields)
+        (rule_validate : N -> N -> N -> N -> N -> option bool) (recover : N -> N -> option N) st ib p dec :
+  fst (origin ib) <> ps_bxh st ->
+  verify_proof H (packed_digest hash fields_of) rule_validate recover st ib (PdBytes p dec) = VOk ->
+  exists app vs bp l,
+    ps_chains st (fst (origin ib)) = Some app /\ a_validators app = Some vs /\ dec = Some bp /\
+    NoDup l /\ incl l vs /\
+    (forall a, In a l -> exists s, In s (bp_sigs bp) /\
+                         recover s (hash (encode (with_status (fields_of (ib_id ib)) (bp_status bp)))) = Some a) /\
+    (Z.of_nat (List.length l) > Z.quot (Z.of_nat (List.length vs) - 1) 3)%Z.
+Proof. exact (multisig_threshold H (packed_digest hash fields_of) rule_validate recover st ib p dec). Qed.
